@@ -345,13 +345,16 @@ func run(c *core.Ctx) {
 	switch {
 	case c.Shard == "unary":
 		for _, a := range numbers(c.Tier) {
-			caseNo, _ := c.Begin()
+			caseNo, run := c.Begin()
+			in := Input{Op: "unary", A: a}
+			if c.Skip(caseNo, run, in) {
+				continue
+			}
 			c.Exec()
 			c.Validate()
 			c.Edge(4)
 			c.StateN(1)
 			c.NontrivialN(1)
-			in := Input{Op: "unary", A: a}
 			if f := checkUnary(a); f != nil {
 				report(caseNo, in, f)
 			} else {
@@ -362,7 +365,10 @@ func run(c *core.Ctx) {
 		c.Sample(string(b))
 	case c.Shard == "fromint":
 		for _, m := range mags(c.Tier) {
-			caseNo, _ := c.Begin()
+			caseNo, run := c.Begin()
+			if c.Skip(caseNo, run, Input{Op: "fromuint", U: m}) {
+				continue
+			}
 			ins := []Input{{Op: "fromuint", U: m}}
 			if m <= 1<<63-1 {
 				ins = append(ins, Input{Op: "fromint", I: int64(m)}, Input{Op: "fromint", I: -int64(m)})
@@ -389,7 +395,10 @@ func run(c *core.Ctx) {
 		c.Sample(`{"op":"fromint","i":-9223372036854775808}`)
 	case c.Shard == "literals":
 		literals(c.Tier, func(lit string) {
-			caseNo, _ := c.Begin()
+			caseNo, run := c.Begin()
+			if c.Skip(caseNo, run, Input{Op: "lit", Lit: lit}) {
+				return
+			}
 			for req := 0; req <= 18; req++ {
 				c.Exec()
 				c.Edge(1)
@@ -422,7 +431,10 @@ func run(c *core.Ctx) {
 			if c.Expired() {
 				break
 			}
-			caseNo, _ := c.Begin()
+			caseNo, run := c.Begin()
+			if c.Skip(caseNo, run, Input{Op: "pair", A: ns[i]}) {
+				continue
+			}
 			for j := range ns {
 				f := checkPair(ns[i], ns[j], sc[i], sc[j])
 				if f != nil {
